@@ -210,7 +210,7 @@ class RefAnalysis(Analysis):
         o = self._obj(st, v)
         return sget(st, "w:" + o, 0) if o is not None else 0
 
-    def _own(self, st, v, delta, node=None):
+    def _own(self, st, v, delta, node=None, explicit=False):
         o = self._obj(st, v)
         if o is None:
             if delta <= 0:
@@ -234,6 +234,18 @@ class RefAnalysis(Analysis):
                             "code (finalizer, weak-reference callback) which "
                             "then finds the container pointing at an object "
                             "that is being destroyed" % (v, src))
+        if delta < 0 and cur == 0 and node is not None and explicit and sget(st, "R:" + o):
+            self.report("LOCAL-REF", node, st, "%s released twice" % v,
+                        "the reference this function owned in %s was already released at %s and "
+                        "nothing was acquired since: the second release takes a reference that "
+                        "belongs to someone else (use after free later)" % (v, sget(st, "R:" + o)))
+        if delta < 0 and cur == 1 and node is not None and explicit:
+            # (only explicit releases: a stealing API that failed has also consumed the
+            # reference, but those failures - PyList_SetItem on a list sized for the
+            # purpose - are not reachable here)
+            st = sset(st, "R:" + o, node.where)
+        if delta > 0:
+            st = sdel(st, "R:" + o)
         n = cur + delta
         n = max(0, min(2, n))
         return sset(st, "w:" + o, n if n else None)
@@ -468,7 +480,7 @@ class RefAnalysis(Analysis):
                                         "Py_DECREF (only the X form tolerates "
                                         "NULL): crash" % v)
                         if not (fl == 0):
-                            st = self._own(st, v, -1, node)
+                            st = self._own(st, v, -1, node, explicit=True)
                 elif c[1] in STEALS:
                     i = STEALS[c[1]]
                     if i < len(args):
